@@ -54,7 +54,11 @@ RULE_ADDED = (
               'mpts in a row, then queries. '
               ' '
               'Round 18: a key asked for again after a heartbeat whose re-connection found a de'
-              'vice with other keys. ')
+              'vice with other keys. '
+              ' '
+              'Round 19: a second manager in the same process, on another device over another t'
+              'ransport; each is asked for keys in turn and answers with what its own device ho'
+              'lds. ')
 RULE = RULE + " " + RULE_ADDED.strip()
 ASSUMPTIONS = [
     "simulated device + fake HID/TCP transports are trusted; firmware selectors are parsed "
@@ -255,6 +259,51 @@ def run_state(acc, cseed, platform, fw, nets, cmpf, Stack, SimDevice):
         acc.evaluations += 1
         if exc is not None or (reply or {}).get("errorcode") != -103:
             acc.violation("unlisted-path-not-103", {"exc": repr(exc), "reply": reply}, case)
+        # ---- a second manager in the same process, connected to another device over another
+        # transport (a supervisor or a test bench running two of them): each answers with
+        # what ITS device holds, whatever the other one was asked before
+        if rng.random() < 0.12:
+            from comm.platform import Platform as _P
+            saved_p = (_P._platform, _P._options)
+            plat2 = rng.choice(["tcp", "sgx"]) if platform == "ledger" else "ledger"
+            pubkeys2 = {path_to_binary(p): art(rng, 65) for p in ALL_PATHS}
+            hashes2 = {hid: art(rng, 32) for hid in fw.values()}
+            dev2 = SimDevice(platform=plat2, mode=MODE_SIGNER, pubkeys=pubkeys2,
+                             state={"hashes": hashes2, "difficulty": gen_diff(rng),
+                                    "flags": flags}, params=None, hb=gen_hb(rng),
+                             uihb=gen_hb(rng))
+            acc.count("second_managers_in_the_same_process")
+            try:
+                with Stack(dev2) as s2:
+                    s2.initialize()
+                    order = [(s2, pubkeys2, "second"), (s, pubkeys, "first")]
+                    if rng.random() < 0.5:
+                        order.append((s2, pubkeys2, "second"))
+                    for (sx, pkx, which) in order:
+                        for p in rng.sample(ALL_PATHS, rng.randint(1, len(ALL_PATHS))):
+                            reply, exc, _ = sx.request({"command": "getPubKey", "version": 5,
+                                                        "keyId": p})
+                            acc.evaluations += 1
+                            if exc is not None or not reply or reply.get("errorcode") != 0:
+                                acc.violation("getPubKey-failed-beside-another-manager",
+                                              {"exc": repr(exc), "reply": reply,
+                                               "manager": which}, case)
+                                continue
+                            if not cmpf("getPubKey.pubKey", reply.get("pubKey"),
+                                        pkx[path_to_binary(p)].hex(), case):
+                                acc.violation(
+                                    "getPubKey-of-one-manager-reports-the-key-of-another-"
+                                    "manager's-device", {"manager": which, "path": p}, case)
+                    reply, exc, _ = s2.request({"command": "blockchainState", "version": 5})
+                    acc.evaluations += 1
+                    if exc is None and reply and reply.get("errorcode") == 0:
+                        cmpf("state.best_block", reply["state"].get("best_block"),
+                             hashes2[fw[fwconst.STATE_FIELD_TO_FW["best_block"]]].hex(), case)
+                    else:
+                        acc.violation("blockchainState-failed-beside-another-manager",
+                                      {"exc": repr(exc), "reply": reply}, case)
+            finally:
+                _P._platform, _P._options = saved_p
         # ---- a device that answers one of the hash queries with another hash: a well-formed
         # answer naming another of the seven identifiers, with that one's datum.  The reply
         # is an error, or whatever it says under a name is what the device said under it
